@@ -285,11 +285,16 @@ func c10Chains(base map[string]any, t []string, f c10Host, iv any) []c10Case {
 			{"{$replace: [first]}", map[string]any{"$replace": []any{h1}}, iv, false},
 			{"same-target", map[string]any{"$replace": toAnyPath(t)}, tval, false},
 			{"[{$merge: first}, 9]", []any{map[string]any{"$merge": h1}, 9}, nil, false},
+			{"[{$merge: first}]", []any{map[string]any{"$merge": h1}}, nil, false},
 		} {
 			want := second.want
-			if second.form == "[{$merge: first}, 9]" {
-				// a list-marker reference to the first host: the first host's VALUE layered onto [9]
-				w, err := c10Layer([]any{9}, iv)
+			if second.form == "[{$merge: first}, 9]" || second.form == "[{$merge: first}]" {
+				// a list-marker reference to the first host: the first host's VALUE layered onto the local entries
+				local := []any{9}
+				if second.form == "[{$merge: first}]" {
+					local = []any{}
+				}
+				w, err := c10Layer(local, iv)
 				if err != nil {
 					continue
 				}
